@@ -15,7 +15,8 @@ from pipeline import field as pf
 THEOREMS = ["Rva.adv_inv", "Rva.lexNext_ok", "Rva.lexAll_positions", "Rva.lexString_positions",
             "Rva.curInv_init", "Rva.skipWs_pres", "Rva.accString_pres",
             "Rva.parseNode_tracked", "Rva.parseNode_endsRaw", "Rva.rawAfter_range", "Rva.parseStep_node_range",
-            "Rva.rewireReturn_keeps_locations"]
+            "Rva.rewireReturn_keeps_locations",
+            "Rva.parseInst_ops", "Rva.parseStep_operands_located"]
 
 MNEMONICS = set(asm.ALL_MNEMONICS) | {"return"}
 
@@ -39,7 +40,7 @@ def programs(rng, n):
 
 def run(res, tier, seed):
     rng = random.Random(seed)
-    proof_ok = proof_stage(res, "Rva.Proofs.C09b", THEOREMS, extra_modules=["Rva.Proofs.C09", "Rva.Proofs.C07b", "Rva.Proofs.C03b"])
+    proof_ok = proof_stage(res, "Rva.Proofs.C09b", THEOREMS, extra_modules=["Rva.Proofs.C09", "Rva.Proofs.C07b", "Rva.Proofs.C03b", "Rva.Proofs.C09c"])
     n = 400 if tier == "quick" else 6000
     srcs = programs(rng, n)
     # the token "x0" on the first line, columns 4.. : the F-11 witness family
